@@ -396,6 +396,9 @@ func TestC01(t *testing.T) {
 
 	// (C) schedule exploration: every schedule up to the deviation bound on the scenario catalogue
 	bound := 1
+	if ev.Thorough() {
+		bound = 2
+	}
 	scns := sCatalogue(2, []int{LIncA, LIncB, LTrvAP})
 	light := 0
 	var lastCfg *CfgSpec
